@@ -178,6 +178,17 @@ func enumerate(thorough bool) (sp spaces, extra map[string]any) {
 		for _, ex := range []string{"0", "1", "2", "killed"} {
 			addBig(ex, "valid", "oversize-blanks", ex == "1")
 		}
+		// a plugin that ignores SIGPIPE and exits 0 although the host closed the pipe at the cap
+		if full {
+			for _, so := range []string{"valid-plus-oversize-blanks", "oversize-garbage"} {
+				sp.big = append(sp.big, Case{Cmd: cmd, Exit: "0", Stdout: so, Stderr: "empty", Timing: tShIgnorePipe, Ctx: cBackground, Req: "small", BigMiB: 65})
+			}
+		}
+		sp.big = append(sp.big, Case{Cmd: cmd, Exit: "0", Stdout: "valid-blanks-beyond-cap-then-garbage", Stderr: "empty", Timing: tShIgnorePipe, Ctx: cBackground, Req: "small", BigMiB: 65})
+		if thorough {
+			sp.big = append(sp.big, Case{Cmd: cmd, Exit: "1", Stdout: "valid-blanks-beyond-cap-then-garbage", Stderr: "err:ERROR", Timing: tShIgnorePipe, Ctx: cBackground, Req: "small", BigMiB: 65})
+			sp.big = append(sp.big, Case{Cmd: cmd, Exit: "0", Stdout: "valid-blanks-beyond-cap-then-garbage", Stderr: "empty", Timing: tShIgnorePipe, Ctx: cBackground, Req: "small", BigMiB: 512})
+		}
 		if thorough {
 			for _, so := range []string{"null", "non-json", "empty"} {
 				for _, ex := range []string{"0", "1"} {
@@ -295,6 +306,9 @@ func (d *driver) record(c Case, res result, replaying bool) {
 		return
 	}
 	d.r.Outcome(v.Class)
+	for _, k := range v.Recorded {
+		d.r.Outcome("recorded:" + k)
+	}
 	if v.Judged {
 		d.r.Nontrivial(c.key())
 	}
@@ -355,6 +369,13 @@ func limitedParallel(n int, cases []Case, f func(Case)) {
 	wg.Wait()
 }
 
+func gcd(a, b int) int {
+	for b != 0 {
+		a, b = b, a%b
+	}
+	return a
+}
+
 func copyFileNoFork(dst, src string) error {
 	b, err := os.ReadFile(src)
 	if err != nil {
@@ -376,7 +397,7 @@ func main() {
 		"stdout/stderr kinds are hand-labelled (honest, invalid-metadata:<clause>, undecodable, oversize, unjudged; structured:<code>, unstructured, huge); the oracle never parses a reply",
 		"null, {} and replies with extra members are recorded but not judged on the non-metadata commands; an honest reply with noise on stderr and exit 0 may be refused (implication)",
 		"the only timing oracle: a call returns within 20 s of the end of its context (expected <= 5.3 s with WaitDelay = 5 s; the descendant holds the pipes for 60 s); contexts of 300 ms are only combined with behaviours that outlast them by 60 s",
-		"cap monitor: peak RSS (VmHWM) growth of a dedicated worker process during the call <= 4 x 64 MiB per oversized stream; 512 MiB emitters make an unbounded buffer visible",
+		"cap monitor: peak RSS (VmHWM) growth of a dedicated worker process during the call <= 8 x 64 MiB per oversized stream; 512 MiB emitters make an unbounded buffer visible",
 		"Linux /proc, /bin/sh and setsid available; plugin descendants are found and killed by the scratch path in their command line",
 	}
 	scratch := hx.Scratch()
@@ -461,7 +482,16 @@ func main() {
 	bwg.Add(1)
 	go func() { // oversized streams: limited parallelism, alongside the cheap product
 		defer bwg.Done()
-		limitedParallel(8, sp.big, func(c Case) {
+		// same idea for the oversize family: a fixed stride order instead of command-major order
+		bigOrder := make([]Case, 0, len(sp.big))
+		bs := 13
+		for len(sp.big) > 0 && gcd(bs, len(sp.big)) != 1 {
+			bs++
+		}
+		for k := range sp.big {
+			bigOrder = append(bigOrder, sp.big[(k*bs)%len(sp.big)])
+		}
+		limitedParallel(8, bigOrder, func(c Case) {
 			defer onPanic(c)()
 			if r.Expired() {
 				d.skipped.Add(1)
@@ -471,32 +501,35 @@ func main() {
 		})
 		bigSecs = time.Since(t0).Seconds()
 	}()
-	r.Parallel(len(sp.cheap), func(i int) {
-		if r.Expired() {
-			d.skipped.Add(1)
-			return
-		}
-		c := sp.cheap[i]
-		d.record(c, d.run(c), false)
-	}, func(i int, v any, stack string) {
-		r.Infra("panic in the code under test on %s: %v\n%s", sp.cheap[i].key(), v, stack)
-	})
-	r.Extra["phase_cheap_product_s(informational)"] = time.Since(t0).Seconds()
-	// overlapping pairs through the logger seam (deterministic family)
-	t1 := time.Now()
+	// the cheap product and the overlapping pairs (logger seam, deterministic family) share one work list whose order
+	// spreads both families and all their dimensions evenly (fixed stride permutation): when the internal deadline
+	// cuts the run on an overloaded machine, what was covered is a cross-section, not a prefix of one family
 	ov := enumerateOverlap(r.Thorough())
 	r.Extra["cases_overlapping_pairs"] = len(ov)
-	r.Parallel(len(ov), func(i int) {
+	total := len(sp.cheap) + len(ov)
+	stride := 7919 // prime; made coprime to total below
+	for gcd(stride, total) != 1 {
+		stride++
+	}
+	r.Parallel(total, func(k int) {
 		if r.Expired() {
 			d.skipped.Add(1)
 			return
 		}
-		resA, resB, bRan := runOverlap(d.root, d.nextID("o"), ov[i])
-		d.recordOverlap(ov[i], resA, resB, bRan, false)
-	}, func(i int, v any, stack string) {
-		r.Infra("panic in the code under test on %s: %v\n%s", ov[i].key(), v, stack)
+		i := int((int64(k) * int64(stride)) % int64(total))
+		if i < len(sp.cheap) {
+			c := sp.cheap[i]
+			d.record(c, d.run(c), false)
+			return
+		}
+		o := ov[i-len(sp.cheap)]
+		resA, resB, bRan := runOverlap(d.root, d.nextID("o"), o)
+		d.recordOverlap(o, resA, resB, bRan, false)
+	}, func(k int, v any, stack string) {
+		r.Infra("panic in the code under test (work item %d): %v\n%s", k, v, stack)
 	})
-	r.Extra["phase_overlapping_pairs_s(informational)"] = time.Since(t1).Seconds()
+	r.Extra["phase_cheap_product_and_overlapping_pairs_s(informational)"] = time.Since(t0).Seconds()
+	var t1 time.Time
 	bwg.Wait()
 	r.Extra["phase_oversize_s(informational)"] = bigSecs
 	t0 = time.Now()
